@@ -271,6 +271,12 @@ func loopMain(p LoopParams) {
 		}
 		c.WaitIdle()
 		vrt.Window(false)
+		if !p.Sched {
+			// histories are sequential: a periodic save has run to its end (incl. the unmark after the store call)
+			// before the next operation; acknowledgements racing a save are C05's scenarios
+			vrt.Quiesce()
+			c.WaitIdle()
+		}
 		if op >= 3 {
 			if !p.Sched && !pendingAck && len(c.Writes) != writesBefore {
 				vrt.Failf("a save performed %d checkpoint write(s) although nothing was acknowledged since the last save (self-triggered by fed-back library keys) after %v", len(c.Writes)-writesBefore, hist)
